@@ -52,6 +52,7 @@ type Scenario struct {
 	restartAfterClose bool
 	wdAt              int                 // step at which the clock jumps and an expired sweep races a live run (-1 never)
 	twinSpecs         []map[string]string // further own instances of the same DAG, started with these variable values
+	dupPush           bool                // retry command processed while a pushed task has not yet stored 'running' and pushes queue up behind a busy worker
 	desc              string
 }
 
@@ -234,6 +235,21 @@ func genScenario(rng *Rng, kind string) *Scenario {
 	case "cmdrace":
 		s.cmdMidFlight = true
 		s.retries = 2
+	case "duppush":
+		// independent tasks, one executor worker: pushes queue up behind the busy worker; t1 fails and is
+		// retried while a later task has been pushed but has not stored 'running' yet - the command's
+		// re-initialisation reads it as init and pushes it a second time
+		s.tasks = s.tasks[:0]
+		nt := 4 + rng.Intn(3)
+		for i := 1; i <= nt; i++ {
+			s.tasks = append(s.tasks, taskSpec{id: fmt.Sprintf("t%d", i), action: "A"})
+		}
+		s.scripts = map[string][]phaseScript{"t1/run": {{outcome: 1}, {}, {}}}
+		s.execWorkers = 1
+		s.parserWorkers = 1
+		s.retries = 1
+		s.continues = 0
+		s.dupPush = true
 	case "tracefault":
 		// every phase traces (buffered and immediate); one status write of some task fails
 		for _, t := range s.tasks {
@@ -667,6 +683,38 @@ func runScenario(w *World, rng *Rng, s *Scenario, maxSteps int) *runResult {
 						e.settle()
 						e.drive(2)
 					}
+				}
+			}
+		}
+		if s.dupPush && s.retries > 0 && !closed && !e.anyIns(hasCmd) {
+			aboutToRun := false
+			for _, g := range e.liveGates() {
+				if g.kind == "store" && strings.HasPrefix(g.desc, "PatchTaskIns:") && strings.HasSuffix(g.desc, ":running") {
+					aboutToRun = true
+				}
+			}
+			if f := e.tasksWithStatus("failed"); len(f) > 0 && aboutToRun {
+				s.retries--
+				ids := f
+				beat()
+				e.spawn(6, "retry-duppush", func() string {
+					if err := mod.GetCommander().RetryTask(ids); err != nil {
+						return "err"
+					}
+					return "ok"
+				})
+				e.settle()
+				e.drive(6)
+				if e.anyIns(hasCmd) {
+					par := e.par
+					e.spawn(2, "watchCmd", func() string {
+						if err := par.VerifWatchCmd(); err != nil {
+							return "err"
+						}
+						return "ok"
+					})
+					e.settle()
+					e.drive(2)
 				}
 			}
 		}
